@@ -49,17 +49,20 @@ const budget = 20 * time.Second
 
 var quiet *ulog.Logger
 
-// opts: manager options; drawn by the plan's init line (TLC) or by the seeded generator
+// opts: manager / server options; drawn by the plan's init line (TLC) or by the seeded generator
 type opts struct {
-	Wt, Rt int // write / read timeout in ms; 0 = library default
+	Wt, Rt int  // write / read timeout in ms (zero and negative values are passed on as they are); dflt = library default
+	DefMax bool // free worlds: no WithMaxConn (the library's default limit, 65535)
 }
+
+const dflt = -1 << 30
 
 func (o opts) mopts() []stcp.MOption {
 	var r []stcp.MOption
-	if o.Wt > 0 {
+	if o.Wt != dflt {
 		r = append(r, stcp.WithWriteTimeout(time.Duration(o.Wt)*time.Millisecond))
 	}
-	if o.Rt > 0 {
+	if o.Rt != dflt {
 		r = append(r, stcp.WithReadTimeout(time.Duration(o.Rt)*time.Millisecond))
 	}
 	return r
@@ -1054,6 +1057,7 @@ type fhandler struct {
 	exit    map[string]chan struct{}
 	exits   map[string]int
 	maxseen int32
+	minseen int32
 }
 
 func (h *fhandler) chans(a string) (chan *stcp.Session, chan struct{}) {
@@ -1102,16 +1106,17 @@ func (h *fhandler) OnExit(s *stcp.Session) {
 }
 
 type fworld struct {
-	w    *tr.W
-	x    *qx.Exec
-	h    *fhandler
-	mgr  *stcp.SessionMgr
-	srv  *stcp.Server
-	eh   <-chan error
-	addr string
-	ss   []*fsess
-	maxc int
-	ccfg clientCfg // for the clients dialled from now on
+	w       *tr.W
+	x       *qx.Exec
+	h       *fhandler
+	mgr     *stcp.SessionMgr
+	srv     *stcp.Server
+	eh      <-chan error
+	addr    string
+	ss      []*fsess
+	maxc    int
+	ccfg    clientCfg // for the clients dialled from now on
+	stopped bool
 	// a positive signal did not arrive: record what is there and stop
 	failed bool
 }
@@ -1158,7 +1163,13 @@ func newFree(w *tr.W, maxc int, o opts, src string) *fworld {
 		fw.h.mgr = fw.mgr
 		fw.addr = freePort()
 		fw.srv = stcp.NewTCPSrv(fw.addr, fw.mgr)
-		fw.eh = fw.srv.Start(stcp.WithMaxConn(int32(maxc)), stcp.WithLogger(quiet))
+		so := []stcp.Option{stcp.WithLogger(quiet)}
+		if o.DefMax {
+			fw.maxc, maxc = 65535, 65535
+		} else {
+			so = append(so, stcp.WithMaxConn(int32(maxc)))
+		}
+		fw.eh = fw.srv.Start(so...)
 		// wait until it listens: a probe connection would be a session, so look at the error
 		// channel and at the socket table instead
 		ok := false
@@ -1203,6 +1214,37 @@ func listening(a string) bool {
 	return false
 }
 
+// sample reads ConnCount as fast as it can while connections are accepted / sessions end, and keeps
+// the extremes: the reader takes part in the race, the count must stay within 0..max at every instant.
+func (fw *fworld) sample() (stop func()) {
+	quit, done := make(chan struct{}), make(chan struct{})
+	go func() {
+		defer close(done)
+		for {
+			select {
+			case <-quit:
+				return
+			default:
+			}
+			n := fw.mgr.ConnCount()
+			for {
+				m := atomic.LoadInt32(&fw.h.maxseen)
+				if n <= m || atomic.CompareAndSwapInt32(&fw.h.maxseen, m, n) {
+					break
+				}
+			}
+			for {
+				m := atomic.LoadInt32(&fw.h.minseen)
+				if n >= m || atomic.CompareAndSwapInt32(&fw.h.minseen, m, n) {
+					break
+				}
+			}
+			runtime.Gosched()
+		}
+	}()
+	return func() { close(quit); <-done }
+}
+
 func (fw *fworld) fire(a tr.E) { emit(fw.w, tr.E{"ev": "fire", "a": a}) }
 
 // dial connects k clients at once and waits, for each, for the positive sign of its fate: the
@@ -1237,13 +1279,20 @@ func (fw *fworld) dial(k int) {
 				out[i] = res{cl: cl, sess: s}
 			case <-cl.done:
 				out[i] = res{cl: cl}
+				select { // admitted and already over (a read deadline in the past): the handler was called
+				case s := <-r:
+					out[i].sess = s
+				default:
+				}
 			case <-t.C:
 				out[i] = res{cl: cl, reg: r, hung: true}
 			}
 		}(i)
 	}
+	stop := fw.sample()
 	close(start)
 	wg.Wait()
+	stop()
 	// A connection that was neither handed to a session nor closed within the budget: if the
 	// process is still busy this says nothing (exit 2).  If every goroutine is parked (the accept
 	// loop back in Accept, nobody left who could close the socket) it is a fact about the server:
@@ -1300,6 +1349,7 @@ func (fw *fworld) dial(k int) {
 
 func (fw *fworld) awaitEnd(x *fsess, clientToo bool) {
 	_, e := fw.h.chans(x.cl.c.LocalAddr().String())
+	defer fw.sample()()
 	if fw.wait(e, "OnExit") && clientToo {
 		fw.wait(x.cl.done, "end of the client's stream")
 	}
@@ -1329,7 +1379,7 @@ func (fw *fworld) sync() {
 		obs[i] = tr.E{"st": x.st, "exits": ex, "got": got, "eof": end == "eof", "gone": end == "eof" || end == "reset",
 			"pure": pure, "tail": tail}
 	}
-	emit(fw.w, tr.E{"ev": "sync", "obs": tr.E{"count": int(fw.mgr.ConnCount()), "maxseen": int(atomic.LoadInt32(&fw.h.maxseen)),
+	emit(fw.w, tr.E{"ev": "sync", "obs": tr.E{"count": int(fw.mgr.ConnCount()), "maxseen": int(atomic.LoadInt32(&fw.h.maxseen)), "minseen": int(atomic.LoadInt32(&fw.h.minseen)),
 		"g": stcpGoroutines(), "ss": obs}})
 }
 
@@ -1344,29 +1394,30 @@ func (fw *fworld) alive() []*fsess {
 }
 
 func (fw *fworld) end(x *fsess, how string) {
+	fw.issue(x, how)
+	fw.awaitEnd(x, true)
+}
+
+// issue performs the ending action and returns at once.
+func (fw *fworld) issue(x *fsess, how string) {
 	x.issued = true
 	switch how {
 	case "close":
 		fw.fire(tr.E{"op": "close", "s": x.id})
 		guard(fw.w, "Close", x.sess.Close)
-		fw.awaitEnd(x, true)
 	case "peer":
 		fw.fire(tr.E{"op": "rfault", "s": x.id, "k": "eof"})
 		x.cl.mu.Lock()
 		x.cl.self = true
 		x.cl.mu.Unlock()
 		x.cl.c.Close()
-		fw.awaitEnd(x, true)
 	case "panic":
 		fw.fire(tr.E{"op": "panic", "s": x.id})
 		x.cl.write([]byte{'P'})
-		fw.awaitEnd(x, true)
 	case "herr":
 		fw.fire(tr.E{"op": "rfault", "s": x.id, "k": "herr"})
 		x.cl.write([]byte{'E'})
-		fw.awaitEnd(x, true)
 	case "timeout": // the fire event was logged when the session was admitted
-		fw.awaitEnd(x, true)
 	}
 }
 
@@ -1388,13 +1439,11 @@ func (fw *fworld) send(x *fsess, rng *rand.Rand) {
 	fw.fire(tr.E{"op": "send", "s": x.id, "b": tr.Ints(bs), "r": r})
 }
 
-func (fw *fworld) finish(rng *rand.Rand) {
-	for _, x := range fw.alive() {
-		if !fw.failed {
-			fw.end(x, "close")
-		}
+func (fw *fworld) stopServer() {
+	if fw.stopped {
+		return
 	}
-	fw.sync()
+	fw.stopped = true
 	if err := fw.srv.Close(); err != nil {
 		fmt.Printf("c16: server close: %v\n", err) // not part of the property
 	}
@@ -1403,8 +1452,45 @@ func (fw *fworld) finish(rng *rand.Rand) {
 	select {
 	case <-fw.eh:
 	case <-t.C:
+		// how the accept loop ends is not part of the property; without it the run cannot go on
 		tr.Fatal("accept loop did not return after the listener was closed")
 	}
+}
+
+// finish ends what is alive.  Orders: the server is stopped before or after its sessions; the
+// sessions are closed one by one or all at the same moment (exits racing on the shared count).
+func (fw *fworld) finish(rng *rand.Rand) {
+	if rng.Intn(3) == 0 {
+		fw.stopServer() // sessions outlive the listener
+	}
+	if al := fw.alive(); !fw.failed && len(al) > 1 && rng.Intn(2) == 0 {
+		var wg sync.WaitGroup
+		gate := make(chan struct{})
+		for _, x := range al {
+			x.issued = true
+			fw.fire(tr.E{"op": "close", "s": x.id})
+			wg.Add(1)
+			go func(x *fsess) {
+				defer wg.Done()
+				<-gate
+				x.sess.Close()
+			}(x)
+		}
+		stop := fw.sample()
+		close(gate)
+		guard(fw.w, "concurrent Close of all sessions", wg.Wait)
+		for _, x := range al {
+			fw.awaitEnd(x, true)
+		}
+		stop()
+	}
+	for _, x := range fw.alive() {
+		if !fw.failed {
+			fw.end(x, "close")
+		}
+	}
+	fw.sync()
+	fw.stopServer()
 	for _, x := range fw.ss {
 		x.cl.c.Close()
 	}
@@ -1455,9 +1541,49 @@ func runBulk(w *tr.W, rng *rand.Rand, o opts) bool {
 
 func runFree(w *tr.W, rng *rand.Rand, idx int) bool {
 	maxc := 1 + rng.Intn(3)
+	switch idx % 10 {
+	case 3:
+		// limit extremes: nothing is admitted (0, negative) / everything is (default, top of int32)
+		o := opts{Wt: 10000, Rt: 20000}
+		maxc = []int{0, -1, 65535, 1<<31 - 1}[rng.Intn(4)]
+		o.DefMax = maxc == 65535
+		fw := newFree(w, maxc, o, "free-limit")
+		fw.dial(1 + rng.Intn(3))
+		fw.sync()
+		if !fw.failed {
+			fw.dial(2 + rng.Intn(2))
+			fw.sync()
+		}
+		for _, x := range fw.alive() {
+			if rng.Intn(2) == 0 {
+				fw.send(x, rng)
+			}
+		}
+		fw.finish(rng)
+		return !fw.failed
+	case 7:
+		// write deadline already over when the Write starts (timeout 0 / negative): the first Write
+		// fails with nothing written, which ends the session
+		fw := newFree(w, maxc, opts{Wt: []int{0, -500}[rng.Intn(2)], Rt: 20000}, "free-wt0")
+		fw.dial(1)
+		fw.sync()
+		if al := fw.alive(); !fw.failed && len(al) == 1 {
+			x := al[0]
+			fw.send(x, rng)
+			fw.fire(tr.E{"op": "wfault", "s": x.id, "n": 0, "k": "timeout"})
+			if rng.Intn(2) == 0 {
+				fw.send(x, rng)
+			}
+			fw.end(x, "timeout")
+			fw.sync()
+		}
+		fw.finish(rng)
+		return !fw.failed
+	}
 	if idx%5 == 4 {
-		// read-deadline world: silent clients, the sessions end by themselves
-		fw := newFree(w, maxc, opts{Wt: 10000, Rt: 30}, "free-timeout")
+		// read-deadline world: silent clients, the sessions end by themselves; the deadline may be
+		// over before the first Read starts (timeout 0 / negative)
+		fw := newFree(w, maxc, opts{Wt: 10000, Rt: []int{30, 30, 1, 0, -1000}[rng.Intn(5)]}, "free-timeout")
 		n := 1 + rng.Intn(maxc+1)
 		for i := 0; i < n; i++ {
 			// one at a time: an earlier session may time out (and free its slot) before a later dial
@@ -1493,10 +1619,19 @@ func runFree(w *tr.W, rng *rand.Rand, idx int) bool {
 			if rng.Intn(2) == 0 {
 				fw.send(al[0], rng)
 			}
-			fw.end(al[rng.Intn(len(al))], []string{"close", "peer", "panic"}[rng.Intn(3)])
-			fw.sync()
-			if !fw.failed {
+			x, how := al[rng.Intn(len(al))], []string{"close", "peer", "panic"}[rng.Intn(3)]
+			if rng.Intn(2) == 0 {
+				fw.end(x, how)
+				fw.sync()
+				if !fw.failed {
+					fw.dial(3 + rng.Intn(4))
+					fw.sync()
+				}
+			} else {
+				// the exit races the burst: the slot may or may not be free for one of them, never for two
+				fw.issue(x, how)
 				fw.dial(3 + rng.Intn(4))
+				fw.awaitEnd(x, true)
 				fw.sync()
 			}
 		}
@@ -1504,6 +1639,10 @@ func runFree(w *tr.W, rng *rand.Rand, idx int) bool {
 		return !fw.failed
 	}
 	fw := newFree(w, maxc, opts{Wt: 10000, Rt: 20000}, "free")
+	if rng.Intn(3) == 0 {
+		fw.dial(2 + rng.Intn(3)) // first use under contention
+		fw.sync()
+	}
 	steps := 6 + rng.Intn(14)
 	for i := 0; i < steps && len(fw.ss) < 6 && !fw.failed; i++ {
 		al := fw.alive()
@@ -1567,7 +1706,7 @@ func main() {
 			if len(p) == 0 || p[0].Op != "init" {
 				tr.Fatal("plan %s does not start with init", f)
 			}
-			o := opts{p[0].Wt, p[0].Rt}
+			o := opts{Wt: p[0].Wt, Rt: p[0].Rt}
 			if !seenOpt[o] {
 				seenOpt[o] = true
 				optList = append(optList, o)
@@ -1577,7 +1716,9 @@ func main() {
 	}
 	for i := 0; i < *nrand; i++ {
 		n := 1 + rng.Intn(3)
-		o := opts{[]int{0, 200, 500, 900, 1000, 3000}[rng.Intn(6)], []int{0, 20000, 45000}[rng.Intn(3)]}
+		// the scripted connection never lets a deadline fire, so every value is admissible here
+		o := opts{Wt: []int{dflt, -3000, 0, 1, 200, 500, 900, 1000, 3000, 1 << 30}[rng.Intn(10)],
+			Rt: []int{dflt, -1, 0, 1, 20000, 45000, 1 << 30}[rng.Intn(7)]}
 		runPlan(w, rng, o, "rand", n, i%3 == 1, i%3 == 2, *empty, randPlan(rng, n, 25+rng.Intn(50), *empty))
 	}
 	w.Close()
@@ -1598,7 +1739,7 @@ func main() {
 		}
 	}
 	if len(bulk) == 0 {
-		bulk = []opts{{Wt: 400, Rt: 20000}, {Wt: 0, Rt: 0}, {Wt: 1000, Rt: 30000}, {Wt: 2500, Rt: 20000}}
+		bulk = []opts{{Wt: 400, Rt: 20000}, {Wt: dflt, Rt: dflt}, {Wt: 1000, Rt: 30000}, {Wt: 2500, Rt: 20000}}
 	}
 	for i := 0; i < *nbulk && ok; i++ {
 		ok = runBulk(fw, rng, bulk[i%len(bulk)])
